@@ -358,10 +358,12 @@ impl<'a, R: Resolve, U: Updater> Cloner for Importer<'a, R, U> {
             return Ok(Ref::new(new_ref));
         }
         let obj = self.resolver.get(old)?;
+        // reserve the new number first: a reference back to `old` met while cloning resolves to it
+        let promise = self.updater.promise::<T>();
+        self.map.insert(old.get_inner(), promise.get_inner());
         let clone = obj.deep_clone(self)?;
 
-        let r = self.updater.create(clone)?;
-        self.map.insert(old.get_inner(), r.get_ref().get_inner());
+        let r = self.updater.fulfill(promise, clone)?;
 
         Ok(r.get_ref())
     }
@@ -370,12 +372,12 @@ impl<'a, R: Resolve, U: Updater> Cloner for Importer<'a, R, U> {
             return Ok(new_ref);
         }
         let obj = self.resolver.resolve(old)?;
-        let clone = obj.deep_clone(self)?;
-
-        let new = self.updater.create(clone)?
-            .get_ref().get_inner();
-
+        // reserve the new number first: a reference back to `old` met while cloning resolves to it
+        let promise = self.updater.promise::<Primitive>();
+        let new = promise.get_inner();
         self.map.insert(old, new);
+        let clone = obj.deep_clone(self)?;
+        self.updater.fulfill(promise, clone)?;
 
         Ok(new)
     }
